@@ -154,7 +154,7 @@ def same(a, b):
 
 def _pure(callee):
     return callee.endswith(("::len", "::as_value", "::is_empty", "::decoded_len", "::leading_ones", "::as_slice", "::deref",
-                            "::as_bytes", "::encoded_len"))
+                            "::as_bytes", "::encoded_len", "::unwrap", "::try_into", "::into", "::from"))
 
 
 class LowerBound:
